@@ -108,18 +108,26 @@ def _path_dir_steps(tree):
     out = []
     for node in ast.walk(fn):
         node._c19_pos = (getattr(node, "lineno", 0), getattr(node, "col_offset", 0))
-    stmts = [n for n in ast.walk(fn) if isinstance(n, (ast.Assign, ast.AnnAssign, ast.Expr, ast.If))]
-    stmts.sort(key=lambda n: n._c19_pos)
-    for st in stmts:
-        if isinstance(st, ast.If):
+    stmts = [(n._c19_pos, n) for n in ast.walk(fn) if isinstance(n, (ast.Assign, ast.AnnAssign, ast.Expr, ast.If))]
+    # the protected region: which statements sit inside the `try`, which in the `finally`
+    for n in ast.walk(fn):
+        if isinstance(n, ast.Try):
+            stmts.append(((n.lineno, -1), "try:"))
+            if n.finalbody:
+                stmts.append(((n.finalbody[0].lineno, -1), "finally:"))
+    stmts.sort(key=lambda t: t[0])
+    for _, st in stmts:
+        if isinstance(st, str):
+            out.append(st)
+        elif isinstance(st, ast.If):
             out.append("if " + ast.unparse(st.test))
         elif isinstance(st, ast.Expr):
             src = ast.unparse(st)
-            if "chdir" in src or "reset" in src:
+            if "chdir" in src or "reset" in src or src.startswith("yield"):
                 out.append(src)
         else:
             tgt = st.targets[0] if isinstance(st, ast.Assign) else st.target
-            if isinstance(tgt, ast.Name) and tgt.id in ("path_dir", "chdir", "token", "scheme"):
+            if isinstance(tgt, ast.Name) and tgt.id in ("path_dir", "chdir", "token", "scheme", "prev_cwd", "cwd"):
                 out.append("%s = %s" % (tgt.id, ast.unparse(st.value)))
     return out
 
